@@ -8,6 +8,8 @@ CONSTANTS
   Dev = {}
   Ops <- MCOpsFull
   InitConds <- MCInitAll
+  InitNold <- MCNold0
+  InitRanks <- MCRankId
 SYMMETRY Symm
 VIEW view
 CHECK_DEADLOCK FALSE
